@@ -129,7 +129,9 @@ impl BulkLoader {
         // Step 1: Validate data
         self.validate()?;
 
-        // Step 2: Create Pager
+        // Step 2: Create Pager (holding the database lock: no handle may open the files
+        // while they are being written)
+        let _db_lock = crate::engine::lock_database(&self.db_path)?;
         let mut pager = crate::pager::Pager::open(&self.db_path)?;
 
         // Step 3: Build the unified label/rel_type interner (must be consistent across
